@@ -287,7 +287,7 @@ func (s *Solver) Check(pc []*Term, extra *Term) SatResult {
 	}
 	dt := time.Since(t0).Seconds()
 	s.timeS += dt
-	if dumpDir != "" && dt > 0.08 {
+	if dumpDir != "" && dt > 3 {
 		s.dumpN++
 		os.WriteFile(fmt.Sprintf("%s/q%d_%d_%s.smt2", dumpDir, os.Getpid(), s.dumpN, res), []byte(Standalone(pc, extra)+"(check-sat)\n"), 0o644)
 	}
